@@ -28,7 +28,7 @@ EXPLANATION = ('Static path/dominance/who-may-call rules over the CFG facts of t
                'Each is a necessary condition of memory safety / bounded work for every accepted font and text; absence of '
                'out-of-bounds access in float-derived collision indexing and the numeric work bound are NOT decided.')
 FLOORS = {'VMSTACK': 60, 'STACKMODEL': 30, 'PARAMSZ': 55, 'DIVGUARD': 1, 'NOSIGNEDOVF': 50, 'SLOTREF': 20,
-          'USERATTR': 3, 'GROWTH': 9, 'CONST': 7, 'RECURSION': 5, 'LOOPLIMIT': 4, 'CMAPBOUND': 4}
+          'USERATTR': 3, 'GROWTH': 9, 'CONST': 7, 'RECURSION': 5, 'LOOPLIMIT': 4, 'CMAPBOUND': 4, 'ADVIDX': 2}
 
 
 # ------------------------------------------------------------------------------------------ SLOTREF
@@ -612,6 +612,58 @@ def looplimit(run, fx):
         run.violated('LOOPLIMIT', 'm_numCollRuns 3 bits', rp.where(), 'm_numCollRuns is no longer masked to 3 bits: %s' % [rp.render(e) for e in st])
 
 
+def advidx(run, fx):
+    """ADVIDX: Font::advance(g) indexes the per-glyph cache m_advances[numGlyphs] unchecked.  Every call site must establish
+    g < numGlyphs first: a dominating comparison of that very value with GlyphCache::numGlyphs(), or a dominating non-null test of
+    a pointer obtained from GlyphCache::glyphSafe(g) for the same g (glyphSafe returns null exactly for g >= numGlyphs)."""
+    adv = fx.one('graphite2::Font::advance')
+    body = [adv.render(e) for _, e in adv.elements() if e['k'] == 'ArraySubscriptExpr']
+    if not any('m_advances' in b for b in body):
+        run.broken('ADVIDX', 'Font::advance', 'Font::advance no longer indexes m_advances directly (shape changed; re-confirm)', adv.where())
+        return
+    guarded_inside = any(f for _, e in adv.elements() if e['k'] == 'ArraySubscriptExpr'
+                         for f in dom.facts_at(adv, e['i']) if f[1] in ('<', '<=') and 'glyphid' in f[0])
+    sites = callers_of(fx, 'graphite2::Font::advance')
+    if len(sites) < 2:
+        raise AnalysisBroken('expected at least 2 call sites of Font::advance, found %d' % len(sites))
+    for fn, e in sites:
+        inst = 'Font::advance index in %s' % fn.q
+        if guarded_inside:
+            run.held('ADVIDX', inst, fn.loc(e), 'Font::advance bounds its own index')
+            continue
+        arg = fn.strip_all_casts(e['args'][0])
+        atxt = fn.render(arg)
+        atxt_res = fn.render(fn.deref(e['args'][0]), resolve=True)
+        fs = dom.facts_at(fn, e['i'])
+        ok = None
+        for f in fs:
+            if f[1] == '<' and f[0] in (atxt, atxt_res) and 'numGlyphs()' in f[2]:
+                ok = 'dominated by %s < %s' % (f[0], f[2])
+            if f[1] == '>' and f[2] in (atxt, atxt_res) and 'numGlyphs()' in f[0]:
+                ok = 'dominated by %s > %s' % (f[0], f[2])
+        if not ok:
+            # pointer locals defined as glyphSafe(<same expression>) and tested non-null
+            for _, d in fn.elements():
+                if d['k'] != 'DeclStmt':
+                    continue
+                for dd in d['decls']:
+                    if dd.get('init') is None:
+                        continue
+                    init = fn.strip_all_casts(dd['init'])
+                    if init.get('fq') == 'graphite2::GlyphCache::glyphSafe' and init.get('args'):
+                        g = fn.render(fn.strip_all_casts(init['args'][0]))
+                        g2 = fn.render(fn.deref(init['args'][0]), resolve=True)
+                        if g in (atxt, atxt_res) or g2 in (atxt, atxt_res):
+                            if any(f[0] == dd['n'] and f[1] == '!=' and f[2] == '0' for f in fs):
+                                ok = 'dominated by %s != 0 with %s = glyphSafe(%s)' % (dd['n'], dd['n'], g)
+        if ok:
+            run.held('ADVIDX', inst, fn.loc(e), ok)
+        else:
+            run.violated('ADVIDX', inst, fn.loc(e), 'Font::advance(%s) indexes m_advances[] (one cell per glyph of the face) but nothing on the way here establishes '
+                         '%s < numGlyphs: a slot whose glyph id the font does not contain reads and may write beyond the cache' % (atxt, atxt),
+                         {'facts': [f[:3] for f in fs][:12]})
+
+
 def run(run):
     vm = R.get_vm(run)
     fx = vm.fx
@@ -626,6 +678,7 @@ def run(run):
     const_(run, vm)
     recursion(run, fx)
     looplimit(run, fx)
+    advidx(run, fx)
     from . import c13
     c13.cmapbound(run, fx)
     run.assume('allocation failure is outside the quantifier (inputs, programs): null returns of the allocators are exempt exits')
